@@ -75,7 +75,7 @@ def body(case, stats):
 
 def worker(widx, seed, tier, stats):
     n = {'quick': 250, 'thorough': 5000}[tier]
-    opts = gen.GenOpts(avoid=common.avoid_set(ID), tail_focus=6, alias_focus=8, block_focus=8, rich_size_exprs=True, oddunion_focus=8, smallopt_focus=8)
+    opts = gen.GenOpts(avoid=common.avoid_set(ID), tail_focus=6, alias_focus=8, block_focus=8, rich_size_exprs=True, oddunion_focus=8, smallopt_focus=8, long_fixed_bias=10)
     runner.run_given(gen.schema_with_values(opts), body, seed, n, stats, shrink=True)
     if opts.avoid and widx < 2:
         # keep every open finding backed by a live reproduction: a small campaign that does not steer away
